@@ -44,6 +44,7 @@ class _Callee:
         ctx = ip.ctx
         h = ctx.h
         ctx.oblige('in-force-during-call.%s' % self.name, eq(V(current_charset(h)), V(attrs_of(h.mf)['charset'])), kind='call-pre')
+        ctx.__dict__.setdefault('callee_calls', []).append((self.name, list(args)))
         which = ctx.fork(1 + len(EXC))
         if which == 0:
             return self.result(ip)
@@ -109,7 +110,18 @@ class LoadRestoresCharset(_CharsetContract):
 class SaveRestoresCharset(_CharsetContract):
     key = 'C17._save'
     target = 'mido.midifiles.midifiles:MidiFile._save'
+    properties = ('C17', 'C16')
     configs = ({'ntracks': 0}, {'ntracks': 1}, {'ntracks': 3})
+
+    def ensures(self, h, cfg, a, r):
+        out = _CharsetContract.ensures(self, h, cfg, a, r)
+        # C16: saving reads only the current contents, and writes exactly the current tracks in order
+        from .c_midifile import CONTENT_ATTRS
+        bad = sorted({e[2] for e in h.ctx.log if e[0] == 'read' and e[1] == id(h.mf) and e[2] not in CONTENT_ATTRS})
+        out['reads-only-current-contents%s' % (' (also read: %s)' % ', '.join(bad) if bad else '')] = not bad
+        calls = [x for x in h.ctx.__dict__.get('callee_calls', []) if x[0] == 'write_track']
+        out['writes-every-current-track-in-order'] = [x[1][1] for x in calls] == list(attrs_of(h.mf)['tracks'])
+        return out
 
     def hooks(self, cfg):
         return {raw_function('mido.midifiles.midifiles:write_chunk'): _Callee('write_chunk', lambda ip: None),
